@@ -17,6 +17,7 @@ import (
 	"berty.tech/go-orbit-db/iface"
 	"berty.tech/go-orbit-db/stores/operation"
 	cid "github.com/ipfs/go-cid"
+	ipld "github.com/ipfs/go-ipld-format"
 	cbornode "github.com/ipfs/go-ipld-cbor"
 	mh "github.com/multiformats/go-multihash"
 )
@@ -232,6 +233,61 @@ func (w *World) forge(ctx context.Context, toks []string) {
 		w.sigOverride = &zero
 		w.lastForged = w.declareForged(a, t)
 		w.sigOverride = nil
+		w.printf("forged %d %s\n", a, w.lastForged)
+		return
+	}
+	if recipe == "reencode" {
+		// the block of a GENUINE entry (the head of `base`'s log) written again with other bytes for the
+		// same content (the hex of the signature in upper case): another block, another address, and it
+		// decodes to the very same entry, signature and all. Anybody who has seen the entry can make one.
+		// Declared as it is: signature valid, address NOT the address of its content (hashok=0).
+		var src *entry.Entry
+		if b, ok := args["base"]; ok && b != "none" {
+			if s, ok := w.stores[atoi(b)]; ok {
+				if hs := s.OpLog().Heads().Slice(); len(hs) > 0 {
+					src, _ = hs[0].(*entry.Entry)
+				}
+			}
+		}
+		fail := func(why string) {
+			w.lastForged = "e0"
+			w.printf("forged %d err %s\n", a, why)
+		}
+		if src == nil {
+			fail("nothing-to-copy")
+			return
+		}
+		var nd ipld.Node
+		for _, pr := range w.peers {
+			if n, err := pr.api.Dag().Get(ctx, src.GetHash()); err == nil {
+				nd = n
+				break
+			}
+		}
+		if nd == nil {
+			fail("block-not-found")
+			return
+		}
+		var m map[string]interface{}
+		if err := cbornode.DecodeInto(nd.RawData(), &m); err != nil {
+			fail("undecodable")
+			return
+		}
+		sg, _ := m["sig"].(string)
+		if strings.ToUpper(sg) == sg {
+			fail("nothing-to-change")
+			return
+		}
+		m["sig"] = strings.ToUpper(sg)
+		twin, err := cbornode.WrapObject(m, mh.SHA2_256, -1)
+		if err != nil {
+			fail("unencodable")
+			return
+		}
+		_ = att.api.Dag().Add(ctx, twin)
+		t := src.Copy().(*entry.Entry)
+		t.SetHash(twin.Cid())
+		w.lastForged = w.declareForged(a, t)
 		w.printf("forged %d %s\n", a, w.lastForged)
 		return
 	}
